@@ -215,6 +215,16 @@ def handle (cmd : String) (args : List String) : Option String :=
       | none => "fail"
       | some (glyf, loca) =>
         (if locaIsLong loca then "L " else "S ") ++ toHex (writeLoca loca) ++ " " ++ toHex glyf)
+  | "hist" =>
+    -- a builder history whose `Err`s the caller ignores: the per-call outcomes (up to the first panic),
+    -- then the built tables
+    (runAll pGlyphs args).map (fun gs =>
+      let outs := String.intercalate "" ((histOutcomes gs).map (fun o =>
+        match o with | .ok => "o" | .err => "e" | .trap => "t"))
+      match buildHist gs with
+      | none => outs ++ " | trap"
+      | some (glyf, loca) =>
+        outs ++ " | " ++ (if locaIsLong loca then "L " else "S ") ++ toHex (writeLoca loca) ++ " " ++ toHex glyf)
   | _ => none
 
 end FontVerif.Drv.C09
